@@ -34,9 +34,13 @@ GridSeq == <<
 NGrid == Len(GridSeq)
 Tier == IF "TIER" \in DOMAIN IOEnv THEN IOEnv.TIER ELSE "quick"
 Quick == Tier = "quick"
-GridIdx == IF Quick THEN 1..31 ELSE 1..NGrid
-\* sub-grid for the assignment-target forms (the lowering, not the operator, is what varies there)
-TargetIdx == IF Quick THEN {1, 3, 6, 9, 14, 20, 27, 28, 31} ELSE {1, 2, 3, 4, 6, 7, 9, 10, 12, 14, 15, 17, 19, 20, 21, 23, 25, 27, 28, 30, 31}
+\* the quick grid: the first 31 values plus the string "0" and the two strings that tell the ECMAScript white space
+\* set from the host's (a mutant that made "0" falsy, or trimmed with the host set, was seen only by random trees before)
+QuickExtra == {gi \in 1..NGrid : GridSeq[gi] \in {S("0"), VStr(<<65279, 49, 160>>), VStr(<<28, 49>>)}}
+GridIdx == IF Quick THEN (1..31) \cup QuickExtra ELSE 1..NGrid
+\* sub-grid for the assignment-target forms (the lowering, not the operator, is what varies there); it contains a
+\* negative number so that >>>= and >>= differ (a mutant mapping >>>= to the >> opcode went unnoticed without it)
+TargetIdx == IF Quick THEN {1, 3, 6, 7, 9, 14, 20, 27, 28, 31} ELSE {1, 2, 3, 4, 6, 7, 9, 10, 12, 14, 15, 17, 19, 20, 21, 23, 25, 27, 28, 30, 31}
 Targets == <<"global", "local", "cell", "free", "dot", "computed", "elem", "elemvar">>
 BinOpSeq == <<"+", "-", "*", "/", "%", "**", "&", "|", "^", "<<", ">>", ">>>", "<", "<=", ">", ">=", "==", "!=", "===", "!==", "&&", "||", ",">>
 CmpdOpSeq == <<"+", "-", "*", "/", "%", "**", "&", "|", "^", "<<", ">>", ">>>">>
